@@ -423,8 +423,26 @@ impl VM {
                 EtherTypes::Ipv6 => Some(PacketPropType::Ipv6),
                 _ => None,
             };
-            if selected != Some(prop) {
-                return Ok(Rc::new(Object::Null));
+            // A layer that was parsed (or assigned) earlier stays reachable under its own name
+            let cached = eth.inner.borrow().as_ref().map(|inner| {
+                matches!(
+                    (prop, inner.as_ref()),
+                    (PacketPropType::Vlan, Object::Vlan(_))
+                        | (PacketPropType::Ipv4, Object::Ipv4(_))
+                        | (PacketPropType::Ipv6, Object::Ipv6(_))
+                        | (PacketPropType::Udp, Object::Udp(_))
+                        | (PacketPropType::Tcp, Object::Tcp(_))
+                        | (_, Object::Err(_))
+                )
+            });
+            if cached != Some(true) {
+                if selected != Some(prop) {
+                    return Ok(Rc::new(Object::Null));
+                }
+                // the cache holds a layer of another kind: parse the selected one afresh
+                if cached == Some(false) {
+                    eth.inner.replace(None);
+                }
             }
         }
         let obj = match prop {
@@ -555,8 +573,26 @@ impl VM {
                 EtherTypes::Ipv6 => Some(PacketPropType::Ipv6),
                 _ => None,
             };
-            if selected != Some(prop) {
-                return Ok(Rc::new(Object::Null));
+            // A layer that was parsed (or assigned) earlier stays reachable under its own name
+            let cached = vlan.inner.borrow().as_ref().map(|inner| {
+                matches!(
+                    (prop, inner.as_ref()),
+                    (PacketPropType::Vlan, Object::Vlan(_))
+                        | (PacketPropType::Ipv4, Object::Ipv4(_))
+                        | (PacketPropType::Ipv6, Object::Ipv6(_))
+                        | (PacketPropType::Udp, Object::Udp(_))
+                        | (PacketPropType::Tcp, Object::Tcp(_))
+                        | (_, Object::Err(_))
+                )
+            });
+            if cached != Some(true) {
+                if selected != Some(prop) {
+                    return Ok(Rc::new(Object::Null));
+                }
+                // the cache holds a layer of another kind: parse the selected one afresh
+                if cached == Some(false) {
+                    vlan.inner.replace(None);
+                }
             }
         }
         let obj = match prop {
@@ -698,8 +734,26 @@ impl VM {
                 Protocols::Ipv6 => Some(PacketPropType::Ipv6),
                 _ => None,
             };
-            if selected != Some(prop) {
-                return Ok(Rc::new(Object::Null));
+            // A layer that was parsed (or assigned) earlier stays reachable under its own name
+            let cached = ipv4.inner.borrow().as_ref().map(|inner| {
+                matches!(
+                    (prop, inner.as_ref()),
+                    (PacketPropType::Vlan, Object::Vlan(_))
+                        | (PacketPropType::Ipv4, Object::Ipv4(_))
+                        | (PacketPropType::Ipv6, Object::Ipv6(_))
+                        | (PacketPropType::Udp, Object::Udp(_))
+                        | (PacketPropType::Tcp, Object::Tcp(_))
+                        | (_, Object::Err(_))
+                )
+            });
+            if cached != Some(true) {
+                if selected != Some(prop) {
+                    return Ok(Rc::new(Object::Null));
+                }
+                // the cache holds a layer of another kind: parse the selected one afresh
+                if cached == Some(false) {
+                    ipv4.inner.replace(None);
+                }
             }
         }
         let obj = match prop {
@@ -920,8 +974,26 @@ impl VM {
                 NextHeaders::Tcp => Some(PacketPropType::Tcp),
                 _ => None,
             };
-            if selected != Some(prop) {
-                return Ok(Rc::new(Object::Null));
+            // A layer that was parsed (or assigned) earlier stays reachable under its own name
+            let cached = ipv6.inner.borrow().as_ref().map(|inner| {
+                matches!(
+                    (prop, inner.as_ref()),
+                    (PacketPropType::Vlan, Object::Vlan(_))
+                        | (PacketPropType::Ipv4, Object::Ipv4(_))
+                        | (PacketPropType::Ipv6, Object::Ipv6(_))
+                        | (PacketPropType::Udp, Object::Udp(_))
+                        | (PacketPropType::Tcp, Object::Tcp(_))
+                        | (_, Object::Err(_))
+                )
+            });
+            if cached != Some(true) {
+                if selected != Some(prop) {
+                    return Ok(Rc::new(Object::Null));
+                }
+                // the cache holds a layer of another kind: parse the selected one afresh
+                if cached == Some(false) {
+                    ipv6.inner.replace(None);
+                }
             }
         }
         let obj = match prop {
